@@ -1,1 +1,207 @@
-Require Import Hdl21.Base.PyInt.
+(* Props/C02.v — ill-formed designs never yield a package or a netlist.
+   Only statements, each closed by a lemma of Proofs/ChecksProofs.v or Proofs/C02Proofs.v (or by computation over
+   the REGENERATED pass list Hdl21Gen.DefaultPasses), followed by Print Assumptions; then non-vacuity Examples.
+
+   Specification: Spec/WfDesign.v `wf_design` (one named error per fault class of the statement) and, for designs with
+   Bundles, Spec/C02BundleWf.v `bwf_design` — both are evaluated in Coq on every generated mutant (Corr/C02.v).
+   Model: Model/Checks.v (ConnTypes.check_instance; which pass-list entries visit a module given the class-level cache of
+   base.py) and Model/C02Checks.v (Orphanage, handle_noconn, the array width rule, MarkModules, and their composition in pass order). *)
+Require Import Hdl21.Base.PyInt Hdl21.Spec.PySlice Hdl21.Model.Slice Hdl21.Model.Resolve Hdl21.Base.Design
+               Hdl21.Spec.WfDesign Hdl21.Model.Checks Hdl21.Model.C02Checks Hdl21.Model.Arrays
+               Hdl21.Proofs.ChecksProofs Hdl21.Proofs.C02Proofs Hdl21.Proofs.ResolveProofs Hdl21.Proofs.SliceProofs.
+Require Import Hdl21Gen.DefaultPasses.
+Require Hdl21.Props.C03.
+Open Scope list_scope.
+Open Scope Z_scope.
+
+(* 1. ConnTypes.check_instance, exactly: an instance is accepted iff every port of its target is connected with the
+      port's own width and no connection names a port the target does not have (missing / extra / unknown port / width) *)
+Theorem C02_check_instance_spec ports conns :
+  nodup_names (map fst ports) = true -> nodup_names (map fst conns) = true ->
+  (check_instance ports conns = true <->
+   (forall p w, assoc p ports = Some w -> assoc p conns = Some w) /\
+   (forall p, In p (map fst conns) -> In p (map fst ports))).
+Proof. exact (check_instance_spec ports conns). Qed.
+Print Assumptions C02_check_instance_spec.
+
+(* 2. base.py's class-level `done` cache, for ANY pass list: the k-th entry visits a module (is "effective")
+      iff no earlier entry of the list shares its cache *)
+Theorem C02_effective_iff_no_earlier_cache l k e b :
+  nth_error (effective l) k = Some (e, b) ->
+  nth_error l k = Some e /\
+  (b = true <-> forall j e', (j < k)%nat -> nth_error l j = Some e' -> cache_of e' <> cache_of e).
+Proof. exact (effective_spec l k e b). Qed.
+Print Assumptions C02_effective_iff_no_earlier_cache.
+
+(* 3. what the boolean `checks_after_rewrites` decides, for ANY pass list: after every entry of a rewriting kind
+      there is a later entry of the checking kind whose cache no earlier entry has used *)
+Theorem C02_checks_after_rewrites_sound l k : checks_after_rewrites l k = true ->
+  forall rk, In rk rewriting_kinds -> forall i e, nth_error l i = Some e -> kind_of e = rk ->
+  exists j e', (i < j)%nat /\ nth_error l j = Some e' /\ kind_of e' = k /\
+    (forall j' e'', (j' < j)%nat -> nth_error l j' = Some e'' -> cache_of e'' <> cache_of e').
+Proof. exact (checks_after_rewrites_sound l k). Qed.
+Print Assumptions C02_checks_after_rewrites_sound.
+
+(* 4. the list literally returned by Elaborator.default in the tree under test (regenerated on every run):
+      a ConnTypes check and an Orphanage check really run after InstBundleElabPass, ResolvePortRefs,
+      BundleFlattener, ArrayFlattener and SliceResolver *)
+Theorem C02_checks_effective :
+  checks_after_rewrites default_passes "ConnTypes" = true /\ checks_after_rewrites default_passes "Orphanage" = true.
+Proof. split; vm_compute; reflexivity. Qed.
+Print Assumptions C02_checks_effective.
+
+Theorem C02_default_list_checks_last k : k = "ConnTypes" \/ k = "Orphanage" ->
+  forall rk, In rk rewriting_kinds -> forall i e, nth_error default_passes i = Some e -> kind_of e = rk ->
+  exists j e', (i < j)%nat /\ nth_error default_passes j = Some e' /\ kind_of e' = k /\
+    (forall j' e'', (j' < j)%nat -> nth_error default_passes j' = Some e'' -> cache_of e'' <> cache_of e').
+Proof.
+  intros Hk. apply checks_after_rewrites_sound. destruct C02_checks_effective as [A B]. destruct Hk as [->| ->]; assumption.
+Qed.
+Print Assumptions C02_default_list_checks_last.
+
+(* 5. the pinned tree's list (ConnTypes and Orphanage listed a second time, i.e. sharing the cache of their first run)
+      fails the same test: the repeats visit nothing — DESIGN.md section 7 item 8 *)
+Definition pinned_passes : list entry :=
+  [("Orphanage", "Orphanage", 0); ("InstBundleElabPass", "InstBundleElabPass", 1); ("ResolvePortRefs", "ResolvePortRefs", 2);
+   ("ConnTypes", "ConnTypes", 3); ("BundleFlattener", "BundleFlattener", 4); ("ArrayFlattener", "ArrayFlattener", 5);
+   ("SliceResolver", "SliceResolver", 6); ("ConnTypes", "ConnTypes", 3); ("Orphanage", "Orphanage", 0);
+   ("MarkModules", "MarkModules", 7)].
+
+Theorem C02_effective_refuted_on_pinned_list :
+  checks_after_rewrites pinned_passes "ConnTypes" = false /\ checks_after_rewrites pinned_passes "Orphanage" = false /\
+  map snd (effective pinned_passes) = [true; true; true; true; true; true; true; false; false; true].
+Proof. repeat split; vm_compute; reflexivity. Qed.
+Print Assumptions C02_effective_refuted_on_pinned_list.
+
+(* 6. Orphanage.check_connectable, exactly: a connection is accepted iff every Signal / Bundle instance it is built from
+      (through slices, concatenations, anonymous bundles) and the Instance / root Bundle of every reference in it is owned
+      by the module under check — owned by another module or by none is rejected *)
+Theorem C02_orphanage_spec m c : orphan_ok m c = true <-> (forall o, In o (owners c) -> o = Some m).
+Proof. exact (orphan_ok_spec m c). Qed.
+Print Assumptions C02_orphanage_spec.
+
+Theorem C02_orphanage_module_spec m attrs insts :
+  orphanage_module m attrs insts = true <->
+  (forall o, In o attrs -> o = Some m) /\
+  (forall conns c o, In conns insts -> In c conns -> In o (owners c) -> o = Some m).
+Proof. exact (orphanage_module_spec m attrs insts). Qed.
+Print Assumptions C02_orphanage_module_spec.
+
+(* 7. portrefs.py handle_noconn: the group grown from a no-connected port is accepted iff nothing else is connected to
+      that port (`followed` = what following each port that refers to it contributes: at least its own reference) *)
+Theorem C02_noconn_also_referenced_rejected i p followed :
+  (forall f, In f followed -> f <> []) ->
+  (handle_group_ok (noconn_group i p followed) = true <-> followed = []).
+Proof. exact (noconn_group_spec i p followed). Qed.
+Print Assumptions C02_noconn_also_referenced_rejected.
+
+(* 8. arrays.py: element k of an n-array gets a connection iff the connection's width is defined (no out-of-range
+      or empty index inside) and equals the port's width or n times it *)
+Theorem C02_array_width_rule n w c k :
+  (exists r, array_elem_conn n w c k = Ok r) <-> (exists cw, xwidth c = Ok cw /\ (cw = w \/ cw = n * w)).
+Proof.
+  unfold array_elem_conn. destruct (xwidth c) as [cw|e]; cbn [bind].
+  - destruct (cw =? w) eqn:E1.
+    + split; [intros _; exists cw; split; [reflexivity|lia]|eauto].
+    + destruct (cw =? n * w) eqn:E2.
+      * split; [intros _; exists cw; split; [reflexivity|lia]|eauto].
+      * split; [intros [r H]; discriminate|intros [cw' [H [A|A]]]; inversion H; lia].
+  - split; [intros [r H]; discriminate|intros [cw [H _]]; discriminate].
+Qed.
+Print Assumptions C02_array_width_rule.
+
+(* 9. index bounds reach the checks: an out-of-range index into a Signal makes `width(conn)` fail, hence
+      conn_widths and with it inst_accepts *)
+Theorem C02_index_out_of_range_rejected id w i : 1 <= w -> ~ (- w <= i < w) ->
+  exists e, xwidth (XSlice (XSig id w) (Idx i)) = Error e.
+Proof.
+  intros Hw Hi. cbn [xwidth]. destruct (w <? 1) eqn:E; [lia|]. cbn [bind].
+  destruct (C03.C03_index_out_of_range w i ltac:(lia) Hi) as [e He]. rewrite He. cbn [bind]. eauto.
+Qed.
+Print Assumptions C02_index_out_of_range_rejected.
+
+(* 10. reject-completeness on the signal-expression fragment (instances and instance arrays whose connections are
+      Signals, slices and concatenations at any nesting; hierarchy at any depth; primitives and external modules):
+      whatever the modelled checks accept, in the order of the default pass list, is valid by the specification.
+      Contrapositive: every fault class that can occur in the fragment — width (direct or through array broadcasting),
+      missing, extra, unknown port, out-of-range or empty index, orphan or foreign Signal, circular instantiation,
+      unnamed or name-clashing module — makes the model reject.
+      `given` = what Python guarantees by construction (dict keys unique, positive widths) and the printer's invariant
+      (leaf width annotations); `frag` = the model is claimed faithful only there.
+
+      FULL statement (not proved; see notes/C02.md):
+        forall d p, elab_export d = Ok p -> wf_design d = Ok tt      for ALL designs of Base/Design.v, and its analogue
+        for Spec/C02BundleWf.v — i.e. including port references, no-connects, Bundles, anonymous Bundles and instance
+        Bundles, whose rewriting passes (ResolvePortRefs, BundleFlattener, InstBundleElabPass) are not modelled here;
+        for those the per-pass characterisations 1, 6, 7, 8 and the pass-order theorem 4 apply individually, and the
+        correspondence run checks the end-to-end statement on every generated mutant. *)
+Theorem C02_wf_reject_complete_partial d :
+  frag d = true -> given d = true -> model_accepts d = true -> wf_design d = Ok tt.
+Proof. intros _. exact (wf_reject_complete d). Qed.
+Print Assumptions C02_wf_reject_complete_partial.
+
+(* 11. no exported bit lies outside its signal (from C03): whatever connection passes the checks denotes only bits
+      0 .. w-1 of the signals it names *)
+Theorem C02_no_bit_outside x bs id k : xbits x = Ok bs -> In (id, k) bs ->
+  exists w, In (id, w) (leaves x) /\ 0 <= k < w.
+Proof. exact (C03.C03_no_bit_outside x bs id k). Qed.
+Print Assumptions C02_no_bit_outside.
+
+(* ---------------- non-vacuity ---------------- *)
+Definition ex_leaf : module :=
+  {| m_name := "Two"; m_ports := [("a", 1); ("b", 2)]; m_sigs := [];
+     m_insts := [{| i_name := "r0"; i_n := 0; i_of := TDev "R" [("p", 1); ("n", 1)];
+                    i_conns := [("p", XSig 0%N 1); ("n", XSlice (XSig 1%N 2) (Idx (-1)))] |}];
+     m_leaves := [(0%N, LSig "a"); (1%N, LSig "b")] |}.
+Definition ex_top (conn_b : sx) : module :=
+  {| m_name := "Top"; m_ports := []; m_sigs := [("s", 4); ("t", 1)];
+     m_insts := [{| i_name := "arr"; i_n := 2; i_of := TMod 0;      (* array: a broadcast, b one section per element *)
+                    i_conns := [("a", XSig 1%N 1); ("b", conn_b)] |};
+                 {| i_name := "one"; i_n := 0; i_of := TMod 0;
+                    i_conns := [("a", XSlice (XSig 0%N 4) (Idx 3)); ("b", XConcat [XSig 1%N 1; XSlice (XSig 0%N 4) (Idx 0)])] |}];
+     m_leaves := [(0%N, LSig "s"); (1%N, LSig "t"); (2%N, LSig "?orphan")] |}.
+Definition ex_design (conn_b : sx) : design := {| d_mods := [ex_leaf; ex_top conn_b]; d_top := 1 |}.
+
+(* a valid two-level design with an array, a slice and a concatenation satisfies every hypothesis of theorem 10 *)
+Example C02_ex_valid :
+  let d := ex_design (XSig 0%N 4) in
+  frag d = true /\ given d = true /\ model_accepts d = true /\ wf_design d = Ok tt.
+Proof. vm_compute. repeat split; reflexivity. Qed.
+
+(* single faults in it: width through array broadcasting (3 is neither 2 nor 2*2), an out-of-range index,
+   an orphan Signal — the model rejects each and the specification names the class *)
+Example C02_ex_faults :
+  (model_accepts (ex_design (XSlice (XSig 0%N 4) (Sl None (Some 3) None))) = false /\
+   wf_design (ex_design (XSlice (XSig 0%N 4) (Sl None (Some 3) None))) = Error EWidth) /\
+  (model_accepts (ex_design (XConcat [XSig 1%N 1; XSlice (XSig 0%N 4) (Idx 4)])) = false /\
+   wf_design (ex_design (XConcat [XSig 1%N 1; XSlice (XSig 0%N 4) (Idx 4)])) = Error EOutOfBounds) /\
+  (model_accepts (ex_design (XSig 2%N 2)) = false /\ wf_design (ex_design (XSig 2%N 2)) = Error EOrphan).
+Proof. vm_compute. repeat split; reflexivity. Qed.
+
+(* theorem 1 on a non-trivial instance: a missing port, an extra port, a wrong width are each rejected *)
+Example C02_ex_check_instance :
+  check_instance [("a", 1); ("b", 2)] [("b", 2); ("a", 1)] = true /\
+  check_instance [("a", 1); ("b", 2)] [("a", 1)] = false /\
+  check_instance [("a", 1); ("b", 2)] [("a", 1); ("b", 2); ("c", 1)] = false /\
+  check_instance [("a", 1); ("b", 2)] [("a", 1); ("b", 3)] = false.
+Proof. vm_compute. repeat split; reflexivity. Qed.
+
+(* theorems 6 and 7 on non-trivial instances: a foreign Signal deep inside an anonymous bundle of concatenated slices;
+   a no-connected port that one other port refers to *)
+Example C02_ex_orphanage :
+  orphan_ok 1 (OAnon [OConcat [OSlice (OOwned (Some 1%nat)); ORef (Some 1%nat)]; ONoConn]) = true /\
+  orphan_ok 1 (OAnon [OConcat [OSlice (OOwned (Some 0%nat)); ORef (Some 1%nat)]; ONoConn]) = false /\
+  orphan_ok 1 (OConcat [OOwned (Some 1%nat); ORef None]) = false.
+Proof. vm_compute. repeat split; reflexivity. Qed.
+
+Example C02_ex_noconn :
+  handle_group_ok (noconn_group "i0" "p" []) = true /\
+  handle_group_ok (noconn_group "i0" "p" [[GRef "i1" "q"]]) = false.
+Proof. vm_compute. split; reflexivity. Qed.
+
+(* theorem 4 is about a list with distinct final checking entries *)
+Example C02_ex_default_list_has_final_checks :
+  (last_of_kind "SliceResolver" default_passes <? last_effective_of_kind "ConnTypes" default_passes) = true /\
+  (last_of_kind "SliceResolver" default_passes <? last_effective_of_kind "Orphanage" default_passes) = true /\
+  (0 <=? last_of_kind "SliceResolver" default_passes) = true.
+Proof. vm_compute. repeat split; reflexivity. Qed.
